@@ -415,9 +415,12 @@ def heap_snapshot(cls, obj, sentinel, extra=()):
         if a == cls['heap'].get('field', 'heap'):
             continue
         if a == cls.get('dict_base'):
-            snap[a] = dict(dict.items(obj))
+            import copy as _copy
+            snap[a] = _copy.deepcopy(dict(dict.items(obj)))
         elif t == ('Val',):
             snap[a] = _heap_slot(getattr(obj, a), ids, sentinel, todo)
+        elif t[0] == 'Dict' and t[2] == ('List', ('Val',)):
+            snap[a] = {k: [_heap_slot(x, ids, sentinel, todo) for x in v] for k, v in getattr(obj, a).items()}
         elif t[0] == 'Dict' and t[2] == ('Val',):
             snap[a] = {k: _heap_slot(v, ids, sentinel, todo) for k, v in getattr(obj, a).items()}
         elif t[0] == 'Option' and t[1] is not None and t[1][0] == 'Fun':
@@ -461,9 +464,12 @@ def heap_build(cls, pycls, snap, sentinel):
         if a == hf:
             continue
         if a == cls.get('dict_base'):
-            dict.update(obj, snap[a])
+            import copy as _copy
+            dict.update(obj, _copy.deepcopy(snap[a]))
         elif t == ('Val',):
             setattr(obj, a, val(snap[a]))
+        elif t[0] == 'Dict' and t[2] == ('List', ('Val',)):
+            setattr(obj, a, {k: [val(x) for x in v] for k, v in snap[a].items()})
         elif t[0] == 'Dict' and t[2] == ('Val',):
             setattr(obj, a, {k: val(v) for k, v in snap[a].items()})
         elif t[0] == 'Option' and t[1] is not None and t[1][0] == 'Fun':
@@ -982,6 +988,75 @@ def fam_lri(method, lru=False):
     return fam
 
 
+OMD_KEYS = ['a', 'b', 'c', '']
+
+
+def _omd_states(rng, quick):
+    """snapshots of OrderedMultiDict objects: reachable ones (random histories on the real class) and corrupted ones (a
+    key missing from `_map` / from the dict, an emptied cell list, a cell unlinked behind `_map`'s back)"""
+    import importlib
+    mod = importlib.import_module('boltons.dictutils')
+    pycls = mod.OrderedMultiDict
+    cls = srctie_specs.OMD
+
+    def snap(o):
+        return heap_snapshot(cls, o, mod._MISSING)[0]
+    for _ in range(12 if quick else 120):
+        o = pycls()
+        yield snap(o)
+        for _ in range(rng.randint(1, 12)):
+            k = rng.choice(OMD_KEYS)
+            r = rng.random()
+            try:
+                if r < 0.4:
+                    o.add(k, rng.randint(0, 9))
+                elif r < 0.5:
+                    o.addlist(k, [rng.randint(0, 9) for _ in range(rng.randint(0, 3))])
+                elif r < 0.65:
+                    o[k] = rng.randint(0, 9)
+                elif r < 0.75:
+                    del o[k]
+                elif r < 0.85:
+                    o.poplast(k)
+                elif r < 0.95:
+                    o.popall(k)
+                else:
+                    o.clear()
+            except (KeyError, IndexError):
+                pass
+            yield snap(o)
+            if rng.random() < 0.2:
+                c = heap_build(cls, pycls, snap(o), mod._MISSING)
+                how = rng.randint(0, 3)
+                if how == 0 and c._map:
+                    del c._map[rng.choice(list(c._map))]
+                elif how == 1 and len(c):
+                    dict.__delitem__(c, rng.choice(list(dict.keys(c))))
+                elif how == 2 and c._map:
+                    c._map[rng.choice(list(c._map))].clear()
+                elif how == 3:
+                    c.root[rng.choice([0, 1])] = None
+                yield snap(c)
+
+
+def fam_omd(method):
+    def fam(rng, quick):
+        for st in _omd_states(rng, quick):
+            for _ in range(2):
+                case = {'self': st}
+                key = rng.choice(list(st['d']) or OMD_KEYS) if rng.random() < 0.6 else rng.choice(OMD_KEYS)
+                if method in ('remove', 'remove_all', 'delitem'):
+                    case['k_'] = key
+                elif method in ('insert', 'add', 'setitem'):
+                    case.update(k_=key, v=rng.randint(0, 9))
+                elif method == 'addlist':
+                    case.update(k_=key, v=[rng.randint(0, 9) for _ in range(rng.randint(0, 3))])
+                elif method == 'popall':
+                    case.update(k_=key, default_=rng.choice([None, None, [7], []]))
+                yield case
+    return fam
+
+
 BPQ_TASKS = ['a', 'b', 'c', 'd', '']
 
 
@@ -1046,6 +1121,16 @@ def fam_bpq(method):
 
 
 FAMILIES = {
+    'OMD.clear_ll': fam_omd('clear_ll'),
+    'OMD.insert': fam_omd('insert'),
+    'OMD.remove': fam_omd('remove'),
+    'OMD.remove_all': fam_omd('remove_all'),
+    'OMD.add': fam_omd('add'),
+    'OMD.addlist': fam_omd('addlist'),
+    'OMD.setitem': fam_omd('setitem'),
+    'OMD.delitem': fam_omd('delitem'),
+    'OMD.popall': fam_omd('popall'),
+    'OMD.clear': fam_omd('clear'),
     'BPQ.remove': fam_bpq('remove'),
     'BPQ.add': fam_bpq('add'),
     'BPQ.cull': fam_bpq('cull'),
@@ -2039,7 +2124,7 @@ _HP = {'params': {'k': 'κ', 'v': 'ν'}, 'result': 'None', 'raises': True, 'cls'
 REJECT3 = [
     ('an allocation inside an expression', 'self._anchor[0] = [k, v]'),
     ('a nested list display', 'x = [k, [v]]\n        self._anchor = x'),
-    ('two store writes in one statement', 'a = self._anchor\n        a[0], a[1] = a, a'),
+    ('unpacking into store places', 'a = self._anchor\n        a[0], a[1] = a'),
     ('storing under a dynamically typed key', 'self._tab[self._anchor[2]] = self._anchor'),
     ('a dynamically typed value where a value of the item type is expected',
      'dict.__setitem__(self, k, self._anchor[3])'),
@@ -2065,7 +2150,7 @@ REJECT3B = [
     ('the backend used as a value', 'x = self._pq\n        self._anchor = x[0]'),
     ('next() inside an expression', 'self.n = next(self._c) + 1'),
     ('next() of something that is not a declared counter', 'self.n = next(self._pq)'),
-    ('the backend pop inside an expression', 'self._anchor = self._pop(self._pq)[0]'),
+    ('the backend pop inside an expression', 'self._anchor = self._pop(self._pq) if self.n else self._anchor'),
     ('the backend push with another container', 'self._push(self._anchor, self._anchor)'),
     ('unpacking a cell into a statically typed variable', 'self.n, b = self._anchor'),
     ('len of the backend', 'self.n = len(self._pq)'),
